@@ -105,7 +105,13 @@ def scratch_root() -> str:
         if base is None:
             import tempfile
             base = tempfile.gettempdir()
-        _scratch_root = os.path.join(base, f"nauyaca-verif-{os.getpid()}")
+        parent = os.environ.get("VERIF_SCRATCH_PARENT")
+        if parent and os.path.isdir(parent):
+            # pool workers leave through os._exit (no atexit): the batch's parent
+            # process owns the directory and removes it when the batch is over
+            _scratch_root = os.path.join(parent, f"w{os.getpid()}")
+        else:
+            _scratch_root = os.path.join(base, f"nauyaca-verif-{os.getpid()}")
         os.makedirs(_scratch_root, exist_ok=True)
         import atexit
         atexit.register(lambda p=_scratch_root, pid=os.getpid(): (
